@@ -20,7 +20,7 @@ type e5desc struct {
 	Race   bool   `json:"race_mode"`
 }
 
-var e5Kinds = []string{"close", "err1", "err2", "err3", "status", "bookmark", "unknown", "nilobj", "burst1-close", "burst10-close", "burst60-close", "close-twice", "slow-connect", "dup", "status-close"}
+var e5Kinds = []string{"close", "err1", "err2", "err3", "status", "bookmark", "unknown", "nilobj", "burst1-close", "burst10-close", "burst60-close", "close-twice", "slow-connect", "dup", "status-close", "flap"}
 var e5Speeds = []string{"", "controller|update event", "watcher|session event", "watcher|session done", "watch-session|"}
 
 func e5Case(hseed uint64, pos int, kind, speed string, race bool) Case {
@@ -78,8 +78,14 @@ func e5Case(hseed uint64, pos int, kind, speed string, race bool) Case {
 		case "dup":
 			f1.Dup = map[int]bool{pos: true}
 			f1.CloseAfter = pos + 1
+		case "flap":
+			// every stream closes after 1 + (pos mod 3) events: many disconnects in a row
+			f1.CloseAfter = 1 + pos%3
 		}
 		srv.WatchPlan = func(i int) kit.WatchFault {
+			if kind == "flap" {
+				return f1
+			}
 			switch {
 			case i == 1:
 				return f1
@@ -123,6 +129,9 @@ func e5Case(hseed uint64, pos int, kind, speed string, race bool) Case {
 		}
 		// the reconnect delay is 1s per attempt; the refresh period is 10000h
 		wait := time.Duration(errs+3)*time.Second + lat2 + 2*time.Second
+		if kind == "flap" {
+			wait = time.Duration(n+4) * time.Second // one reconnect delay per closed stream
+		}
 		time.Sleep(wait)
 		g.barrier()
 
